@@ -103,6 +103,19 @@ func init() {
 			}
 			return a[1], true
 		},
+		"MonitorBegin": func(w *Worker, fr *frame, a []Value) (Value, bool) {
+			w.monitorBegin(sS(a[0]), a[1].(Bool).C, []Value(w.asSlice(a[2])))
+			return nil, true
+		},
+		"MonitorIgnore": func(w *Worker, fr *frame, a []Value) (Value, bool) {
+			ign, _ := w.pathState["monitorIgnore"].([]Value)
+			w.pathState["monitorIgnore"] = append(ign, w.asSlice(a[0])...)
+			return nil, true
+		},
+		"MonitorEnd": func(w *Worker, fr *frame, a []Value) (Value, bool) {
+			w.monitorEnd(fr)
+			return nil, true
+		},
 		"Native": func(w *Worker, fr *frame, a []Value) (Value, bool) {
 			return mkBool(false), true
 		},
